@@ -1,12 +1,12 @@
 CONSTANTS
-  NF = 2  NB = 1
-  Faults <- StreamFaults
+  NF = 2  NB = 2
+  Faults <- NamedFaults
   Modes <- AllModes
-  Caps <- Caps13
-  MaxPre = 1
-  T = 5  QT = 5  FoCap = 20
-  Ticks = FALSE  FwdStream = TRUE
-  PreWorks <- NoWork
+  Caps <- Caps1236
+  MaxPre = 0
+  T = 2  QT = 5  FoCap = 20
+  Ticks = FALSE  FwdStream = FALSE
+  PreWorks <- AllWorks
   DebitFirst = TRUE  CheckMatch = TRUE  StopAtDeadline = TRUE  LatchGuard = TRUE  StampFirst = TRUE
 INIT Init
 NEXT SimNext
